@@ -11,7 +11,7 @@ for d in sorted(os.listdir(sd)):
     meta = json.load(open(mp))
     which = d.split("-")[1]
     notes = open(os.path.join(sd, d, "NOTES.agent.md")).read() if os.path.exists(os.path.join(sd, d, "NOTES.agent.md")) else ""
-    secs = re.split(r"(?m)^##+\s*(?:Change|Regression|Seed)?\s*([A-P])\b", notes)
+    secs = re.split(r"(?m)^##+\s*(?:Change|Regression|Seed)?\s*([A-S])\b", notes)
     sec = ""
     for i in range(1, len(secs) - 1, 2):
         if secs[i] == which:
